@@ -9,6 +9,7 @@ import (
 	"io"
 	stdlog "log"
 	"math/big"
+	"os"
 	"runtime/debug"
 	"strings"
 	"sync"
@@ -22,6 +23,7 @@ import (
 	"github.com/MinterTeam/minter-go-node/coreV2/state"
 	"github.com/MinterTeam/minter-go-node/coreV2/transaction"
 	"github.com/MinterTeam/minter-go-node/coreV2/types"
+	"github.com/cosmos/cosmos-sdk/snapshots"
 	"github.com/tendermint/go-amino"
 	abci "github.com/tendermint/tendermint/abci/types"
 	tmlog "github.com/tendermint/tendermint/libs/log"
@@ -92,6 +94,13 @@ type Node struct {
 	LastTime time.Time // header time of the last block
 	InBlock  bool
 	Dead     *Fault // set once a call ended with a panic/exit: the process is gone
+
+	// ValidatorsHint is the validator set to vote with while the node has no state object yet.
+	ValidatorsHint []types.TmAddress
+
+	snapDir      string
+	snapInterval int
+	snapKeep     int
 }
 
 func newHome() string {
@@ -162,6 +171,11 @@ func (n *Node) open() *Fault {
 	return guard("NewMinterBlockchain", func() {
 		st := utils.NewStorageWithDBs(n.home, n.home+"/config/config.toml", n.Set.Get("state"), n.Set.Get("events"), n.Set.Get("snapshot"))
 		n.App = minter.NewMinterBlockchain(st, n.cfg(), context.Background(), n.P.StakePeriod, n.P.OrdersPeriod, tmlog.NewNopLogger())
+		if n.snapDir != "" {
+			if err := n.attachSnapshots(); err != nil {
+				panic(err)
+			}
+		}
 	})
 }
 
@@ -253,7 +267,8 @@ func (n *Node) Validators() []types.TmAddress {
 	var out []types.TmAddress
 	cs := n.App.CurrentState()
 	if cs == nil {
-		return nil
+		// no state object yet (state-synced node before its first block): the caller knows the set
+		return n.ValidatorsHint
 	}
 	for _, v := range cs.Validators().GetValidators() {
 		out = append(out, v.GetAddress())
@@ -471,4 +486,57 @@ func (n *Node) GenesisFromExport() (*types.AppState, error) {
 	t, r0, r1, reward, off := adb.GetPrice()
 	st.PrevReward = types.RewardPrice{Time: uint64(t.UTC().UnixNano()), AmountBIP: r0.String(), AmountUSDT: r1.String(), Off: off, Reward: reward.String()}
 	return &st, nil
+}
+
+var snapSeq uint64
+
+// EnableSnapshots gives the node a state-sync snapshot store (chunks are files: the only
+// place where the lab needs a real directory) and makes it snapshot every `interval` blocks.
+func (n *Node) EnableSnapshots(interval, keep int) error {
+	if n.snapDir == "" {
+		n.snapDir = fmt.Sprintf("%s/.scratch/snap/%d-%d", scratchRoot(), os.Getpid(), atomic.AddUint64(&snapSeq, 1))
+		if err := os.MkdirAll(n.snapDir, 0o755); err != nil {
+			return err
+		}
+	}
+	n.snapInterval, n.snapKeep = interval, keep
+	return n.attachSnapshots()
+}
+
+func (n *Node) attachSnapshots() error {
+	if n.snapInterval <= 0 && n.snapDir == "" {
+		return nil
+	}
+	store, err := snapshots.NewStore(n.Set.Get("snapshot"), n.snapDir)
+	if err != nil {
+		return err
+	}
+	n.App.SetSnapshotStore(store, n.snapInterval, n.snapKeep)
+	return nil
+}
+
+// Cleanup removes the files a node created (snapshot chunks).
+func (n *Node) Cleanup() {
+	if n.snapDir != "" {
+		_ = os.RemoveAll(n.snapDir)
+		n.snapDir = ""
+	}
+}
+
+func scratchRoot() string {
+	if r := os.Getenv("VERIF_ROOT"); r != "" {
+		return r
+	}
+	return "/verif"
+}
+
+// NewBareNode builds a node object over empty databases without InitChain (a node that is
+// about to be state-synced).
+func NewBareNode(p Params) (*Node, *Fault) {
+	n := &Node{P: p, Set: vdb.NewSet(), home: newHome()}
+	f := n.open()
+	if f != nil {
+		n.Dead = f
+	}
+	return n, f
 }
